@@ -2,8 +2,8 @@ package checks
 
 import (
 	"bytes"
-	"encoding/json"
 	"database/sql/driver"
+	"encoding/json"
 	"fmt"
 	"strings"
 
@@ -21,11 +21,11 @@ type faultCase struct {
 	Entry string `json:"entry"` // ReadCSV ReadJSON ToCSV ToJSON ReadSQL ToSQL
 	Input int    `json:"input"` // index into the entry point's input family
 	// reader faults
-	At       int  `json:"at"`                  // byte offset (readers/short writes), call number (writers, driver)
-	With     int  `json:"with,omitempty"`      // bytes delivered together with the error (readers)
-	Chunk    int  `json:"chunk,omitempty"`     // read fragmentation: at most Chunk bytes per read (0 = everything)
-	Short    bool `json:"short,omitempty"`     // writer: short write at byte offset At instead of failing call number At
-	Site     string `json:"site,omitempty"`    // driver: prepare query next exec
+	At    int    `json:"at"`              // byte offset (readers/short writes), call number (writers, driver)
+	With  int    `json:"with,omitempty"`  // bytes delivered together with the error (readers)
+	Chunk int    `json:"chunk,omitempty"` // read fragmentation: at most Chunk bytes per read (0 = everything)
+	Short bool   `json:"short,omitempty"` // writer: short write at byte offset At instead of failing call number At
+	Site  string `json:"site,omitempty"`  // driver: prepare query next exec
 }
 
 // faultWriter fails the At-th Write call (call mode) or accepts only the first At bytes in total (short mode).
